@@ -784,8 +784,9 @@ func parseJSONSchemaTags(tag reflect.StructTag, schema *openapi3.Schema) error {
 				if schema.Enum == nil {
 					schema.Enum = make([]any, 0)
 				}
-				// Add single enum value (standard format: enum=val1,enum=val2,enum=val3)
-				schema.Enum = append(schema.Enum, value)
+				// Add single enum value (standard format: enum=val1,enum=val2,enum=val3),
+				// as a value of the field's own JSON type so that it can match an instance.
+				schema.Enum = append(schema.Enum, typedEnumValue(schema, value))
 			case "default":
 				// Convert default value based on schema type
 				if schema.Type != nil && len(*schema.Type) > 0 {
@@ -824,6 +825,29 @@ func parseJSONSchemaTags(tag reflect.StructTag, schema *openapi3.Schema) error {
 	}
 
 	return nil
+}
+
+// typedEnumValue converts an enum=... tag value to the JSON type of the schema it constrains
+// (integer, number or boolean); values that do not parse, and all other types, stay strings.
+func typedEnumValue(schema *openapi3.Schema, value string) any {
+	if schema.Type == nil || len(*schema.Type) == 0 {
+		return value
+	}
+	switch (*schema.Type)[0] {
+	case "integer":
+		if intVal, err := strconv.ParseInt(value, 10, 64); err == nil {
+			return intVal
+		}
+	case "number":
+		if floatVal, err := strconv.ParseFloat(value, 64); err == nil {
+			return floatVal
+		}
+	case "boolean":
+		if boolVal, err := strconv.ParseBool(value); err == nil {
+			return boolVal
+		}
+	}
+	return value
 }
 
 // NestedRefGenerator manages nested inline $ref generation.
